@@ -380,6 +380,7 @@ func init() {
 		c.ruleIndexBoundOnSameIndex("R8", "spynode.fetchSpentOutputs")
 		c.ruleNoContentFailureInSharedTxPath("R9", 2)
 		c.ruleWiring("R10", c.constructorsIn("handlers", "spynode"))
+		c.ruleTrustedAnswerNeedsEntry("R11")
 	}
 }
 
